@@ -438,6 +438,7 @@ def execute(case, ctx):
             if resolver == "merge":
                 model = {h: dict(m=m, px=m * vx, py=m * vy, pz=m * vz, mx=m * x, my=m * y, mz=m * z) for (h, x, y, z, vx, vy, vz, m, r) in seen_state}
                 removed = set()
+                merged_this_step = set()
                 for l in ledger:
                     if l[0] != st:
                         continue
@@ -449,6 +450,12 @@ def execute(case, ctx):
                     if out in (1, 2):
                         probe("merges")
                         dead, keep = (h1, h2) if out == 1 else (h2, h1)
+                        if dead in merged_this_step or keep in merged_this_step:
+                            viol("ledger", "a body took part in two mergers in one step", "%s step %d: pair (%d,%d), already merged in this step: %s" % (
+                                tagm, st, h1, h2, sorted(merged_this_step & {h1, h2})), key="ledger:merged-twice", seed=seed)
+                            bad = True
+                            break
+                        merged_this_step.update((dead, keep))
                         if dead not in model or keep not in model:
                             viol("ledger", "merge names an unknown particle", "%s" % tagm, seed=seed)
                             bad = True
